@@ -295,6 +295,13 @@ def run(repo, chk):
     def t2_part(construct):
         return None if construct.endswith('::restore-order') else 'C03.J5'
     c02.run(repo, Remap(chk, {'C02.T2': t2_part, 'C02.T3': 'C03.J5', 'C02.T4': 'C03.J5', 'C02.T7': 'C03.J5'}))
+    # a function whose body can complete without returning runs into the code that follows it - usually another function,
+    # whose defeat sites then execute with no enclosing Turing jump; the exit-mode algebra that decides where a return must
+    # be appended (and which statements may be dropped) is tabulated in C16.E1/E3
+    chk.rule('C03.J8', 'control does not fall off the end of a function into foreign code: exit-mode soundness and implicit return '
+                       '(shared with C16.E1/E3)')
+    from . import c16
+    c16.run(repo, Remap(chk, {'C16.E1': 'C03.J8', 'C16.E3': 'C03.J8'}))
     chk.sample({'jump_site_forms': {s: sorted(f) for s, f in list(sorted(site_forms.items()))[:10]}})
     chk.sample({'stdlib_jump_roles': [f'{at.ins[i]} -> {r[0]}' for i, r in list(sorted(tf.jumps.items()))[:8]]})
     chk.not_decided = ['the VM implementation of the Turing jump', 'behaviour excluded by the property (UB)']
